@@ -379,7 +379,8 @@ func (s *sched) exec(ctx context.Context, r Req) (any, *plugins.Error) {
 		if gated {
 			s.blocked[fmt.Sprintf("%s#%d", k, c.n)] = c
 		}
-		ov = script(s.out, ref.pl, ref.name, c.n, "ok") == "overrun"
+		so := script(s.out, ref.pl, ref.name, c.n, "ok")
+		ov = so == "overrun" || so == "lateok"
 		if !ov {
 			s.infl[ref.pl]++
 		}
@@ -400,7 +401,7 @@ func (s *sched) exec(ctx context.Context, r Req) (any, *plugins.Error) {
 		}
 	}
 	tag := fmt.Sprintf("%s@%d", ref.name, c.n)
-	if out == "overrun" {
+	if out == "overrun" || out == "lateok" {
 		atomic.AddInt64(&s.ovOpen, 1)
 		select {
 		case <-ctx.Done():
@@ -408,6 +409,11 @@ func (s *sched) exec(ctx context.Context, r Req) (any, *plugins.Error) {
 		case <-time.After(s.ovCap):
 		}
 		defer atomic.AddInt64(&s.ovOpen, -1)
+		if out == "lateok" {
+			// a plugin that is slow to honour the cancellation: it returns a (now worthless) success while the
+			// engine is already busy with the next attempt
+			time.Sleep(25 * time.Millisecond)
+		}
 	}
 	s.emit(ref.pl, func() ev {
 		if !ov {
@@ -426,6 +432,8 @@ func (s *sched) exec(ctx context.Context, r Req) (any, *plugins.Error) {
 		return WrongResp{X: c.n}, &plugins.Error{Message: "tr " + tag}
 	case "overrun":
 		return nil, &plugins.Error{Message: "late " + tag}
+	case "lateok":
+		return Resp{Tag: tag}, nil
 	}
 	return nil, &plugins.Error{Message: "tr " + tag}
 }
